@@ -18,6 +18,9 @@ echo "py2v: ok"
 cp -r "$here/resolve" "$tmp/resolve"
 for f in ResolveCore ResolveProofs; do run "$tmp/resolve" coqc -Q . R $f.v; done
 echo "resolve: ok"
+cp -r "$here/chain" "$tmp/chain"
+for f in ChainModel ChainProps; do run "$tmp/chain" coqc -Q . C $f.v; done
+echo "chain: ok"
 cp -r "$here/cli" "$tmp/cli"
 for f in CliIR CliGen CliProps; do run "$tmp/cli" coqc $f.v; done
 echo "cli: ok"
